@@ -200,7 +200,8 @@ impl<'a> Cx<'a> {
 						};
 						out.push(FrameG { at: pc as u32, kind });
 					}
-					g.frames = Some(out);
+					// a StackMapTable without entries is what the JVMS assumes for a method without the attribute (4.7.4)
+					g.frames = if out.is_empty() { None } else { Some(out) };
 				}
 				AttrInfo::RuntimeVisibleTypeAnnotations(v) => { once.see(&a.name)?; g.visible_type_annotations = self.code_type_annotations(v)?; }
 				AttrInfo::RuntimeInvisibleTypeAnnotations(v) => { once.see(&a.name)?; g.invisible_type_annotations = self.code_type_annotations(v)?; }
